@@ -779,6 +779,56 @@ impl C17 {
         }
         obs.sig(&[17, 3, gen::len_bucket(value.ndigits()), gen::scale_bucket(value.scale, value.ndigits()), 0], false);
         obs.digest_str(&text);
+        // ---- the JSON-number adapters against the same (non-JSON) peer
+        {
+            // None must arrive as the format's none
+            let mut rec = SerRecord::default();
+            let none: Option<BigDecimal> = None;
+            let r = catch(|| bigdecimal::serde::json_num_option::serialize(&none, RecSerializer { rec: &mut rec, human_readable: human, sink: SinkSpec::Unbounded }));
+            obs.execs += 1;
+            obs.execs_fault_free += 1;
+            match r {
+                Err(m) => fails.push(sf("J0-no-panic", &un, format!("json_num_option::serialize(None) panicked: {}", m))),
+                Ok(res) => {
+                    if res.is_err() || rec.got_none != 1 || rec.got_unit != 0 || !rec.structs.is_empty() || rec.collected.is_some() || rec.serialized_str.is_some() {
+                        fails.push(sf("J8-serializer-peer", &un, format!("json_num_option::serialize(None): the peer must receive exactly one serialize_none; it got none x{} unit x{} structs {:?} result {:?}", rec.got_none, rec.got_unit, rec.structs, res)).fact("adapter", "json_num_option_none"));
+                    } else {
+                        obs.reach("adapter_none_is_none");
+                    }
+                }
+            }
+            // a number must arrive as serde_json's number token carrying text that denotes the value
+            let within_limit = (value.scale as i128).abs() <= SCALE_LIMIT;
+            for which in 0..2 {
+                let mut rec = SerRecord::default();
+                let r = catch(|| {
+                    if which == 0 {
+                        bigdecimal::serde::json_num::serialize(&v, RecSerializer { rec: &mut rec, human_readable: human, sink: SinkSpec::Unbounded })
+                    } else {
+                        bigdecimal::serde::json_num_option::serialize(&Some(v.clone()), RecSerializer { rec: &mut rec, human_readable: human, sink: SinkSpec::Unbounded })
+                    }
+                });
+                obs.execs += 1;
+                obs.execs_fault_free += 1;
+                let name = if which == 0 { "json_num" } else { "json_num_option" };
+                match r {
+                    Err(m) => fails.push(sf("J0-no-panic", &un, format!("{}::serialize panicked: {}", name, m))),
+                    Ok(Err(e)) => fails.push(sf("J1-serializes", &un, format!("{}::serialize failed on a legal decimal: {}", name, e)).fact("zero_with_negative_scale_in_number_adapter", value.is_zero() && value.scale < 0)),
+                    Ok(Ok(())) => match rec.structs.first() {
+                        Some((sname, key, Some(text))) if sname == crate::env::peer::PRIVATE_NUMBER_KEY && key == crate::env::peer::PRIVATE_NUMBER_KEY && rec.structs.len() == 1 => {
+                            let ok = is_json_number(text) && parse_numeral(text).map_or(false, |n| RefDec { int: n.int, exp: -n.scale }.value_eq(&value.to_ref()));
+                            if !ok {
+                                fails.push(sf("J1-roundtrip-number-form", &un, format!("{}::serialize handed the peer the number text {:?}, which is not a JSON number denoting the value", name, clip(text, 60))).fact("field", "num"));
+                            } else {
+                                obs.reach("adapter_number_token_checked");
+                            }
+                        }
+                        other => fails.push(sf("J8-serializer-peer", &un, format!("{}::serialize: the peer expected serde_json's number token, got {:?} (none x{}, unit x{})", name, other, rec.got_none, rec.got_unit))),
+                    },
+                }
+                let _ = within_limit;
+            }
+        }
         if rec.collected.is_none() {
             return fails; // the peer's sink is not involved
         }
@@ -1170,6 +1220,8 @@ impl Property for C17 {
             "float_token_exact",
             "peer_sink_error_propagated",
             "peer_error_from_map_access",
+            "adapter_none_is_none",
+            "adapter_number_token_checked",
         ]
     }
 }
